@@ -1,5 +1,6 @@
 """C05 harnesses: only caller-allowed algorithms are used; default = the documented recommended set; none never verifies;
 no dependence on earlier calls.  Gate-level harnesses use no stubs (pure Python registries)."""
+import os
 from typing import Optional, List, Union
 from joserfc import jws, jwe, jwt
 from joserfc.rfc7515.registry import JWSRegistry, construct_registry, default_registry as JWS_DEFAULT
@@ -258,6 +259,9 @@ JWE_KEY = {"RSA1_5": "RSA", "RSA-OAEP": "RSA", "RSA-OAEP-256": "RSA", "A128KW": 
            "PBES2-HS256+A128KW": "oct32", "PBES2-HS384+A192KW": "oct32", "PBES2-HS512+A256KW": "oct32"}
 CEKLEN = {"A128CBC-HS256": 32, "A192CBC-HS384": 48, "A256CBC-HS512": 64, "A128GCM": 16, "A192GCM": 24, "A256GCM": 32}
 _JP = None
+LITE = os.environ.get('VERIF_TIER', 'quick') == 'quick'
+ALLOW_MAX = 1 if LITE else 2
+FIX_MAX = (0, 3, 5) if LITE else (1, 5, 5)
 
 
 def _jwe_ops(op, alg, enc, has_zip, zipname, allow, via_registry, v0, v1):
@@ -265,20 +269,29 @@ def _jwe_ops(op, alg, enc, has_zip, zipname, allow, via_registry, v0, v1):
     rt.tick()
     if _JP is None:
         _JP = C16.patches()
-    n = CEKLEN.get(enc, 16)
-    key = _JK.get(JWE_KEY.get(alg), ice.fake_key("oct%d" % n))
+    n, cbc = 16, False
+    for k_, v_ in CEKLEN.items():            # equality scan: no hashing / substring search on the symbolic name
+        if enc == k_:
+            n, cbc = v_, k_[4:7] == "CBC"
+            break
+    kind = None
+    for k_, v_ in JWE_KEY.items():
+        if alg == k_:
+            kind = v_
+            break
+    key = _JK[kind] if kind else ice.fake_key("oct%d" % n)
     hdr = {"alg": alg, "enc": enc}
     if has_zip:
         hdr["zip"] = zipname
     full = dict(hdr)
     if alg in ("A128GCMKW", "A192GCMKW", "A256GCMKW"):
         full["iv"], full["tag"] = "KWIV", "KWTAG"
-    if alg in JWE_KEY and alg.startswith("PBES2"):
+    if kind and alg in ("PBES2-HS256+A128KW", "PBES2-HS384+A192KW", "PBES2-HS512+A256KW"):
         full["p2s"], full["p2c"] = "P2S", 1000
-    if alg in JWE_KEY and alg.startswith("ECDH"):
+    if kind == "EC":
         full["epk"] = {"kty": "EC", "crv": "P-256", "x": "EPKX", "y": "EPKY"}
     env = C16.jwe_env(full, [v0, v1, v1])
-    env.bind_b64(b"IVSEG", bytes(16 if "CBC" in enc else 12))
+    env.bind_b64(b"IVSEG", bytes(16 if cbc else 12))
     env.ceks = [bytes(n), bytes(n)]
     env.plaintext = b"payload"
     env.bind_json(b"payload", lambda: {"sub": "x"})
@@ -320,13 +333,35 @@ def _jwe_ops(op, alg, enc, has_zip, zipname, allow, via_registry, v0, v1):
     return True
 
 
-def jwe_ops(op: int, alg: str, enc: str, has_zip: bool, zipname: str, allow: Optional[List[str]], via_registry: bool, v0: bool, v1: bool) -> bool:
+ALG_FIX = ["dir", "A128KW", "RSA-OAEP", "ECDH-ES+A128KW", "PBES2-HS256+A128KW", "A128GCMKW"]
+ENC_FIX = ["A128GCM", "A128CBC-HS256"]
+
+
+def resolve_jwe(vary, name, fix, has_zip, allow, inc_a, inc_b):
+    """One header location varies symbolically (vary: 0 alg, 1 enc, 2 zip); the other two take registered names from a small pool and are
+    appended to the (symbolic) allow-list under inc_a / inc_b."""
+    if vary == 0:
+        alg, enc, zipname = name, ENC_FIX[fix % 2], "DEF"
+        extra = ([enc] if inc_a else []) + (["DEF"] if inc_b else [])
+    elif vary == 1:
+        alg, enc, zipname = ALG_FIX[fix], name, "DEF"
+        extra = ([alg] if inc_a else []) + (["DEF"] if inc_b else [])
+    else:
+        alg, enc, zipname, has_zip = ALG_FIX[fix], ENC_FIX[0], name, True
+        extra = ([alg] if inc_a else []) + ([enc] if inc_b else [])
+    return alg, enc, has_zip, zipname, (None if allow is None else list(allow) + extra)
+
+
+def jwe_ops(op: int, vary: int, fix: int, name: str, has_zip: bool, allow: Optional[List[str]], inc_a: bool, inc_b: bool, via_registry: bool,
+            v0: bool, v1: bool) -> bool:
     """
-    PRE: 0 <= op <= 5 and len(alg) <= 18 and len(enc) <= 13 and len(zipname) <= 3
-    PRE: allow is None or (len(allow) <= 2 and all(len(a) <= 18 for a in allow))
+    PRE: 0 <= op <= 5 and 0 <= vary <= 2 and 0 <= fix <= FIX_MAX[vary] and len(name) <= (18, 13, 3)[vary]
+    PRE: not LITE or vary == 2 or (inc_b and not has_zip)
+    PRE: allow is None or (len(allow) <= ALLOW_MAX and all(len(a) <= (18, 13, 3)[vary] for a in allow))
     POST: _
     """
-    return _jwe_ops(op, alg, enc, has_zip, zipname, allow, via_registry, v0, v1)
+    alg, enc, has_zip, zipname, al = resolve_jwe(vary, name, fix, has_zip, allow, inc_a, inc_b)
+    return _jwe_ops(op, alg, enc, has_zip, zipname, al, via_registry, v0, v1)
 
 
 def jwe_ops_witness(op: int, alg: str, enc: str, allow: Optional[List[str]], v0: bool, v1: bool) -> bool:
@@ -382,8 +417,9 @@ def replay(func, call):
         from joserfc.jwk import JWKRegistry
         a = eval("(" + call + ",)")
         if "__" in func:
-            a = (int(func.split("__")[1]),) + a
-        op, alg, enc, has_zip, zipname, allow, via_registry, v0, v1 = a
+            a = tuple(int(x) for x in func.split("__")[1].split("_")) + a
+        op, vary, fix, name, has_zip, allow, inc_a, inc_b, via_registry, v0, v1 = a
+        alg, enc, has_zip, zipname, allow = resolve_jwe(vary, name, fix, has_zip, allow, inc_a, inc_b)
         kk = {"RSA": "RSA2048", "EC": "P-256"}.get(JWE_KEY.get(alg), JWE_KEY.get(alg)) or ("oct%d" % CEKLEN.get(enc, 16))
         jwk = R.test_key(kk)
         key = JWKRegistry.import_key(jwk)
